@@ -710,7 +710,8 @@ def m_type_name(m, st, ctx, args, span):
     for g in ctx.gargs:
         if "ty" in g:
             t = g["ty"]
-    return Opaque(E("type_name", (t["s"] if t else "?", t["k"] if t else "?")), ctx.dest_ty)
+    import json as _json
+    return Opaque(E("type_name", (t["s"] if t else "?", t["k"] if t else "?", _json.dumps(t, sort_keys=True) if t else "null")), ctx.dest_ty)
 
 
 @model("core::fmt::rt::Argument::<'_>::new_display", "core::fmt::rt::Argument::<'_>::new_debug",
